@@ -31,8 +31,9 @@ def main(argv=None):
     try:
         import spectrum
         src = os.path.realpath(os.path.dirname(spectrum.__file__))
-        if not src.startswith('/repo/'):
-            raise core.MachineryError('spectrum imported from %s, not from /repo' % src)
+        want = os.path.realpath(os.environ.get('VERIF_REPO', '/repo')) + '/'
+        if not src.startswith(want):
+            raise core.MachineryError('spectrum imported from %s, not from %s' % (src, want))
         if a.replay:
             with open(a.replay) as f:
                 rec = json.load(f)
